@@ -314,6 +314,15 @@ def strip_x1_x2(text, widen_fn=False, log=None):
     t = DROP_ATTR.sub('', t)
     t = re.sub(r'\bpub\((crate|super|in [^)]*)\) ', 'pub ', t)
     t = re.sub(r'\n\s*\n+', '\n', t)
+    # X1 also covers `macro_rules!` definitions that rustc's pretty-printer leaves in a function body: every use has been
+    # expanded already, so the definition is dead text (and would shift textual call anchors)
+    while True:
+        m = mask(t)
+        mm = re.search(r'\bmacro_rules!\s*[A-Za-z_][A-Za-z0-9_]*\s*\{', m)
+        if not mm:
+            break
+        e = match_close(m, mm.end() - 1)
+        t = t[:mm.start()] + t[e + 1:]
     return t
 
 
@@ -672,6 +681,17 @@ def resolve_anchor(text, anchor):
         if es is None:
             raise LostAnchor("lost anchor: statement of call %d of %s" % (k, callee))
         return es[0] if where == 'before' else es[1]
+    if a[0] == 'text':
+        # `text <k> <tokens...> before|after`: the statement holding the k-th occurrence of the token sequence (whitespace-insensitive)
+        k, where = int(a[1]), a[-1]
+        pat = re.compile(r'\s*'.join(re.escape(tk) for tk in a[2:-1]))
+        pos = [mm.start() for mm in pat.finditer(m)]
+        if k > len(pos):
+            raise LostAnchor("lost anchor: %s (found %d)" % (anchor, len(pos)))
+        es = enclosing_statement(text, pos[k - 1])
+        if es is None:
+            raise LostAnchor("lost anchor: statement of %s" % anchor)
+        return es[0] if where == 'before' else es[1]
     if a[0] == 'stmt':
         st = top_statements(text)
         k = int(a[1])
@@ -877,6 +897,8 @@ def build_unit(template_text, expansions, twin=False):
             meta['profile'] = d.split()[1]
         elif d.startswith('props '):
             props = d.split()[1:]
+        elif d.startswith('rlimit ') or d.startswith('tier '):
+            pass        # read by the driver (tools/vlib.py template_info)
         elif d.startswith('include ') and d.split()[1].startswith('std_') and d.split()[1] in meta.get('includes', []):
             pass        # assumed std specs are crate-global in Verus: declared once per unit, by the first module that needs them
         elif d.startswith('include '):
@@ -928,6 +950,20 @@ def build_unit(template_text, expansions, twin=False):
             if 'pub' in flags and not re.match(r'\s*pub ', text):
                 text = re.sub(r'^(\s*)', r'\1pub ', text, count=1)
             text = apply_rules(text, flags, meta['rules'], path)
+            if 'execconst' in flags:
+                # X16: `const N: T = e;` whose initialiser Verus cannot read as a spec expression (calls, indexing of other
+                # constants) becomes `exec const N: T ensures <template lines> { e }`: same value, computed by the same
+                # expression, with the stated postcondition proved from it
+                ens = []
+                while i + 1 < n and lines[i + 1].strip().startswith('//%%'):
+                    ens.append(lines[i + 1].strip()[4:].strip())
+                    i += 1
+                mm = re.match(r'(\s*(?:pub(?:\([^)]*\))?\s+)?)const\s+([A-Za-z_][A-Za-z0-9_]*)\s*:\s*(.*?)\s*=\s*(.*);\s*$', text, re.S)
+                if not mm:
+                    raise LostAnchor("execconst: not a const item: %s" % path)
+                before = norm(text)[:80]
+                text = '%sexec const %s: %s\n    ensures %s\n{ %s }' % (mm.group(1), mm.group(2), mm.group(3), " ".join(ens), mm.group(4))
+                meta['rules'].append({'rule': 'X16', 'fn': " / ".join(path), 'before': before, 'after': 'exec const with ensures'})
             start = cur_line()
             out.append(text)
             meta['items'].append({'path': " / ".join(path), 'kind': it.kind, 'lines': [start, cur_line() - 1],
